@@ -64,6 +64,7 @@ func init() {
 		"vfUF2":        vfUF,
 		"vfUF4":        vfUF,
 		"vfUF6":        vfUF,
+		"vfWktNum":     vfWktNum,
 		"vfSnapshot":   vfSnapshot,
 		"vfUnchanged":  vfUnchanged,
 	}
@@ -100,6 +101,8 @@ func init() {
 		"math/bits.Len32":           symLen32,
 		"math/bits.Len64":           symLen64,
 		"regexp.MustCompile":        stubRegexpMustCompile,
+		"strconv.ParseFloat":        stubParseFloat,
+		"(*regexp.Regexp).FindAllStringSubmatchIndex": stubFindAllStringSubmatchIndex,
 		"sort.Slice":                stubSortSlice,
 		"sort.SliceStable":          stubSortSlice,
 		"fmt.Errorf":                stubErrorf,
@@ -162,6 +165,231 @@ func init() {
 }
 
 func stubNop(fr *frame, a []value) value { return nil }
+
+// Hand matcher for the two literal patterns of encoding/wkt (the regexp engine itself is not
+// executed): `\)([\s|\t]*,[\s|\t]*)\(` and `\)[\s|\t]*\)([\s|\t]*,[\s|\t]*)\([\s|\t]*\(`.
+// Leftmost, non-overlapping matches; the class [\s|\t] is { \t \n \v \f \r space | }.
+func stubFindAllStringSubmatchIndex(fr *frame, a []value) value {
+	re := (*a[0].(*value)).(structure)
+	expr, _ := re[0].(string)
+	var double bool
+	switch expr {
+	case "\\)([\\s|\\t]*,[\\s|\\t]*)\\(":
+		double = false
+	case "\\)[\\s|\\t]*\\)([\\s|\\t]*,[\\s|\\t]*)\\([\\s|\\t]*\\(":
+		double = true
+	default:
+		panic(unsupported{"regexp pattern without a hand matcher: " + expr})
+	}
+	s := toSymString(a[1]).b
+	pc := fr.i.pc
+	is := func(i int, c byte) bool {
+		if i >= len(s) {
+			return false
+		}
+		switch b := s[i].(type) {
+		case uint8:
+			return b == c
+		case sym:
+			return pc.branch("(= " + b.t + " " + bvLit(uint64(c), 8) + ")")
+		}
+		return false
+	}
+	ws := func(i int) bool {
+		for _, c := range []byte{' ', '\t', '\n', '\v', '\f', '\r', '|'} {
+			if is(i, c) {
+				return true
+			}
+		}
+		return false
+	}
+	skip := func(i int) int {
+		for i < len(s) && ws(i) {
+			i++
+		}
+		return i
+	}
+	// match at position i: returns (end, g1start, g1end, ok)
+	match := func(i int) (int, int, int, bool) {
+		if !is(i, ')') {
+			return 0, 0, 0, false
+		}
+		j := i + 1
+		if double {
+			j = skip(j)
+			if !is(j, ')') {
+				return 0, 0, 0, false
+			}
+			j++
+		}
+		g1 := j
+		j = skip(j)
+		if !is(j, ',') {
+			return 0, 0, 0, false
+		}
+		j = skip(j + 1)
+		g1e := j
+		if !is(j, '(') {
+			return 0, 0, 0, false
+		}
+		j++
+		if double {
+			j = skip(j)
+			if !is(j, '(') {
+				return 0, 0, 0, false
+			}
+			j++
+		}
+		return j, g1, g1e, true
+	}
+	var res []value
+	for i := 0; i < len(s); {
+		if end, g1, g1e, ok := match(i); ok {
+			res = append(res, []value{i, end, g1, g1e})
+			i = end
+		} else {
+			i++
+		}
+	}
+	pc.stats.StubsHit["handmatcher:regexp "+expr]++
+	if len(res) == 0 {
+		return []value(nil)
+	}
+	return res
+}
+
+// ---- number tokens for text codecs (WKT) ----
+// vfWktNum(name, L) is a float64 whose %g spelling is a symbolic byte string of length L drawn
+// from the %g output grammar -?d+(.d+)? | -?d(.d+)?e[+-]dd. fmt.Fprintf("%g") emits exactly these
+// bytes and strconv.ParseFloat returns the value when handed exactly these bytes (stub contract:
+// the text<->float64 bijection of a single number is std-lib behaviour and is assumed).
+
+type numToken struct {
+	val   sym
+	bytes []value
+}
+
+func numTemplates(L int) []string {
+	// class strings: d digit, - minus, . point, e exponent, s sign
+	var out []string
+	digits := func(n int) string { return strings.Repeat("d", n) }
+	for neg := 0; neg <= 1; neg++ {
+		pre := ""
+		if neg == 1 {
+			pre = "-"
+		}
+		// plain: d+ or d+.d+
+		for i := 1; i <= L; i++ {
+			if len(pre)+i == L {
+				out = append(out, pre+digits(i))
+			}
+			for f := 1; len(pre)+i+1+f <= L; f++ {
+				if len(pre)+i+1+f == L {
+					out = append(out, pre+digits(i)+"."+digits(f))
+				}
+			}
+		}
+		// exponent: d(.d+)?e[+-]dd
+		if len(pre)+1+4 == L {
+			out = append(out, pre+"desdd")
+		}
+		for f := 1; len(pre)+1+1+f+4 <= L; f++ {
+			if len(pre)+2+f+4 == L {
+				out = append(out, pre+"d."+digits(f)+"esdd")
+			}
+		}
+	}
+	return out
+}
+
+func vfWktNum(fr *frame, a []value) value {
+	pc := fr.i.pc
+	name := a[0].(string)
+	L := int(asInt64(a[1]))
+	if pc.concrete {
+		return vfNondetReal(fr, a[:1])
+	}
+	r := vfNondetReal(fr, a[:1]).(sym)
+	bs := vfNondetBytes(fr, []value{name + ".text", L}).([]value)
+	var alts []string
+	for _, tpl := range numTemplates(L) {
+		var conj []string
+		for i, c := range tpl {
+			b := bs[i].(sym).t
+			switch c {
+			case 'd':
+				conj = append(conj, "(bvuge "+b+" #x30)", "(bvule "+b+" #x39)")
+			case '-':
+				conj = append(conj, "(= "+b+" #x2d)")
+			case '.':
+				conj = append(conj, "(= "+b+" #x2e)")
+			case 'e':
+				conj = append(conj, "(= "+b+" #x65)")
+			case 's':
+				conj = append(conj, "(or (= "+b+" #x2b) (= "+b+" #x2d))")
+			}
+		}
+		alts = append(alts, "(and "+strings.Join(conj, " ")+")")
+	}
+	if len(alts) == 0 {
+		panic(unsupported{"vfWktNum: no spelling of that length"})
+	}
+	pc.assert("(or " + strings.Join(alts, " ") + " false)")
+	pc.numTokens = append(pc.numTokens, numToken{val: r, bytes: bs})
+	pc.stats.Assumptions["number text: fmt %g and strconv.ParseFloat are inverse on a single number (std-lib contract, assumed); spellings range over the %g grammar with symbolic bytes"] = true
+	return r
+}
+
+func stubParseFloat(fr *frame, a []value) value {
+	pc := fr.i.pc
+	mkErr := func() value { return tuple{float64(0), fr.i.newError("strconv.ParseFloat: invalid syntax")} }
+	switch s := a[0].(type) {
+	case string:
+		f, err := strconv.ParseFloat(s, int(asInt64(a[1])))
+		if err != nil {
+			return tuple{f, fr.i.newError(err.Error())}
+		}
+		return tuple{f, iface{}}
+	case symString:
+		for _, tk := range pc.numTokens {
+			if len(tk.bytes) != len(s.b) {
+				continue
+			}
+			same := true
+			for i := range s.b {
+				x, ok1 := s.b[i].(sym)
+				y, ok2 := tk.bytes[i].(sym)
+				if !ok1 || !ok2 {
+					same = false
+					break
+				}
+				if x.t != y.t {
+					// not the same term: the same byte only if the solver proves it
+					if pc.solver.CheckWith("(not (= "+x.t+" "+y.t+"))") != "unsat" {
+						same = false
+						break
+					}
+				}
+			}
+			if same {
+				return tuple{tk.val, iface{}}
+			}
+		}
+		if len(pc.numTokens) > 0 {
+			// some other byte string than an emitted number: by the stub contract this is not
+			// the number that was printed
+			return mkErr()
+		}
+		// hostile-input harnesses: the result is arbitrary
+		ok := vfNondetBool(fr, []value{"parsefloat.ok"})
+		r := vfNondetReal(fr, []value{"parsefloat.value"})
+		if pc.branch(boolTerm(ok)) {
+			return tuple{r, iface{}}
+		}
+		return mkErr()
+	}
+	panic(unsupported{"strconv.ParseFloat argument"})
+}
 
 // sovVectorTile(x) = (bits.Len64(x|1)+6)/7, the varint size: for a symbolic argument an ITE over
 // the nine thresholds (the generic encoding needs a 64-bit division by 7). Validated against the
@@ -1242,6 +1470,12 @@ func stubFprintf(fr *frame, a []value) value {
 	text := ""
 	if args, ok := nativeArgs(a[2]); ok {
 		text = fmt.Sprintf(format, args...)
+	} else if bs, ok := formatWithTokens(fr, format, a[2]); ok {
+		w := a[0].(iface)
+		if w.t == nil {
+			panic(goPanic{"invalid memory address or nil pointer dereference (nil io.Writer)"})
+		}
+		return callWrite(fr, w, bs)
 	} else {
 		text = strings.NewReplacer("%g", "<num>", "%v", "<v>", "%d", "<int>", "%s", "<s>").Replace(format)
 		fr.i.pc.stats.Assumptions["fmt.Fprintf with symbolic operands writes an opaque token per verb"] = true
@@ -1250,6 +1484,58 @@ func stubFprintf(fr *frame, a []value) value {
 	if w.t == nil {
 		panic(goPanic{"invalid memory address or nil pointer dereference (nil io.Writer)"})
 	}
+	return callWrite(fr, w, toSymString(text).b)
+}
+
+// formatWithTokens expands a format that only uses %g verbs with number-token operands.
+func formatWithTokens(fr *frame, format string, args value) ([]value, bool) {
+	pc := fr.i.pc
+	av, ok := args.([]value)
+	if !ok {
+		return nil, false
+	}
+	var out []value
+	ai := 0
+	for i := 0; i < len(format); i++ {
+		if format[i] == '%' && i+1 < len(format) && format[i+1] == 'g' {
+			if ai >= len(av) {
+				return nil, false
+			}
+			e, ok := av[ai].(iface)
+			ai++
+			if !ok {
+				return nil, false
+			}
+			switch v := e.v.(type) {
+			case float64:
+				out = append(out, toSymString(strconv.FormatFloat(v, 'g', -1, 64)).b...)
+			case sym:
+				found := false
+				for _, tk := range pc.numTokens {
+					if tk.val.t == v.t {
+						out = append(out, tk.bytes...)
+						found = true
+						break
+					}
+				}
+				if !found {
+					return nil, false
+				}
+			default:
+				return nil, false
+			}
+			i++
+			continue
+		}
+		if format[i] == '%' {
+			return nil, false
+		}
+		out = append(out, format[i])
+	}
+	return out, true
+}
+
+func callWrite(fr *frame, w iface, b []value) value {
 	var meth *types.Func
 	ms := fr.i.prog.MethodSets.MethodSet(w.t)
 	for k := 0; k < ms.Len(); k++ {
@@ -1261,7 +1547,6 @@ func stubFprintf(fr *frame, a []value) value {
 		panic(unsupported{"Fprintf: writer without Write"})
 	}
 	fn := lookupMethod(fr.i, w.t, meth)
-	b := toSymString(text).b
 	res := call(fr.i, fr, token.NoPos, fn, []value{w.v, b})
 	return res
 }
